@@ -4,7 +4,7 @@ import interp_common
 MODULES = ["Props.C01", "Props.RunTie"]
 THEOREMS = ["Props.C01.c01_runloop", "Props.C01.c01_toplevel", "Props.C01.c01_compare_ints", "Props.C01.c01_not", "Props.C01.c01_and",
             "Props.C01.c01_or",
-            "Props.RunTie.consider_line_source_is_model", "Props.RunTie.advance_source"]
+            "Props.C01.c01_strings_math", "Props.RunTie.consider_line_source_is_model", "Props.RunTie.advance_source"]
 
 
 def run(check, tier):
